@@ -15,7 +15,10 @@
 (D) law checker (independent of the Coq model; exact Fractions + mpmath): both sides of
     J'^T R' = sum rho' J^T R and J'^T J' = sum rho' J^T J + 2 rho'' J^T R R^T J computed from the
     implementation's outputs; kernel clauses (closed form, zero at zero, finite, monotone, rejects
-    negative) on the implementation's values.  Recorded findings are replayed on every run.
+    negative) on the implementation's values.
+The witnesses of the three defects repaired in /repo (e6f8307 Scale accepted negative input, 298dcfc
+Triggs dropped R on masked blocks, af4d69c Triggs raised for constant-slope kernels) are directed
+regression cases of every run.
 """
 import math
 from ..common import *
@@ -23,6 +26,8 @@ from ..common import *
 K_EPS = 64
 EPS = 2.0 ** -52
 LAW_TOL = 1e-9
+# the two families of case files run concurrently on >= 12 workers (half the workers each), else one after the other
+NFILES = max(1, NCPU // 2) if NCPU >= 12 else max(1, NCPU)
 KNAMES = ['Huber', 'PseudoHuber', 'Cauchy', 'SoftLOne', 'Arctan', 'Tolerant', 'Scale']
 USER = ['Sq', 'Id', 'S1', 'L1', 'P25', 'NegSq', 'Shift']      # user kernels, see user_kernel()
 RULE = ('kernels: (kernel, p1, p2, x) with delta log-uniform in [1e-3, 1e3] (Scale: (0,1]), Tolerant a in [1e-2,1e2], a/|b| in [0.01,50]; '
@@ -32,9 +37,6 @@ RULE = ('kernels: (kernel, p1, p2, x) with delta log-uniform in [1e-3, 1e3] (Sca
         'dyadics / gaussians / zero blocks / blocks exactly at the Huber threshold; one case per block and corrector, non-trivial when R_i != 0; '
         'tolerance %d eps relative to the magnitude of the intermediate terms of the coded formula; law tolerance %g relative' % (K_EPS, LAW_TOL))
 
-K_SCALE_NEG = 'Scale.forward:negative-input:accepted'
-K_TRIGGS_GRAD = 'Triggs.forward:masked-block:gradient'
-K_TRIGGS_RAISE = 'Triggs.compute_grads:constant-slope-kernel:raises'
 
 
 # ------------------------------------------------------------------ the implementation
@@ -252,7 +254,7 @@ def run_exact(ctx, pp, torch):
             lits.append('(%d%%nat, %d%%nat, %s, %s, %s, %s)' % (i, kid, qlit(p1), qlit(p2), qlit(x), qlist(out)))
         # the property's own clauses, checked on the implementation
         if x < 0 and how == 'value':
-            ctx.violation('Scale.forward:negative-input:accepted' if kid == 6 else 'kernel:%s:negative-input:accepted' % KNAMES[kid],
+            ctx.violation('kernel:%s:negative-input:accepted' % KNAMES[kid],
                           '%s(%r).forward(%r) returns %r instead of rejecting the negative input' % (KNAMES[kid], p1, x, out[1]),
                           dict(kind='kernel-neg', kid=kid, p1=p1, p2=p2, x=x))
         if x >= 0 and how == 'value' and all(math.isfinite(v) for v in out):
@@ -357,7 +359,7 @@ def run_kernel_enclosure(ctx, pp, torch):
                     comps.append((3, g2, t2))
                 cases.append(dict(idx=i, expr='kernel_l %d %s %s %s' % (kid, rlit(p1), rlit(p2), rlit(x)), comps=comps))
     def coq():
-        return run_enclosure('C09', 'Model.Kernel', cases, prec=200, per_file=min(40, max(6, -(-len(cases) // max(1, NCPU // 2)))), timeout_goal=30, tag='kenc')
+        return run_enclosure('C09', 'Model.Kernel', cases, prec=200, per_file=min(40, max(6, -(-len(cases) // NFILES))), timeout_goal=30, tag='kenc')
 
     def done(r):
         collect(ctx, r, cases, meta, 'kernel-enclosure')
@@ -485,9 +487,9 @@ def gen_block(rng, d, kind, thr=1.0):
 
 
 def kernel_spec(rng, which):
-    """(label, kind for true_rho, p1, p2, graph) - graph = False: rho' is a constant of the autograd graph"""
+    """(label, kind for true_rho, p1, p2, True)"""
     if which in USER:
-        return which, which, 0.0, 0.0, which != 'Id'
+        return which, which, 0.0, 0.0, True
     if which == 'Tolerant45':                       # a/|b| = 45, inside the property's range a/|b| <= 50
         a = float(2.0 ** rng.randint(2, 5))
         return 'Tolerant', 5, a, -a / 45, True
@@ -499,7 +501,7 @@ def kernel_spec(rng, which):
         p1 = max(min(p1, 64.0), -64.0) if abs(p1) >= 2.0 ** -6 else 2.0 ** -6
         if kid == 6:
             p1 = min(abs(p1), 1.0)
-    return which, kid, p1, p2, kid != 6
+    return which, kid, p1, p2, True
 
 
 def build_kernel(pp, torch, spec):
@@ -520,7 +522,8 @@ def run_corrector(pp, torch, spec, cname, Rt, Jt):
 
 
 def grads_of(pp, torch, spec, Rt):
-    """(x, g1, g2) per block exactly as Triggs.compute_grads returns them; g2 None when it raises"""
+    """(x, g1, g2) per block exactly as Triggs.compute_grads returns them (g2 = 0 where rho' is a constant
+    of the autograd graph); g2 None when compute_grads raises"""
     k = build_kernel(pp, torch, spec)
     try:
         x, g1, g2 = pp.optim.corrector.Triggs(k).compute_grads(Rt.clone())
@@ -542,9 +545,8 @@ def law_check(spec, cname, Rb, Jb, out, fast_out=None, g2s=None):
     xs = [sum(F(v) * F(v) for v in Rb[i]) for i in range(nb)]
     der = [true_rho(kind, p1, p2, xs[i]) for i in range(nb)]
     masked = [cname == 'Triggs' and xs[i] != 0 and der[i][2] > 0 for i in range(nb)]
-    # blocks on which the implementation took the masked branch (autograd's rho'' > 0) although the true
-    # rho'' is <= 0: happens with Tolerant, a/|b| >~ 37, where autograd's rho'' is rounding noise of either sign
-    spurious = [cname == 'Triggs' and not masked[i] and xs[i] != 0 and g2s is not None and g2s[i] > 0 for i in range(nb)]
+    # (blocks on which autograd's rho'' is positive rounding noise although the true rho'' is <= 0 - Tolerant with
+    # a/|b| >~ 37 - take the masked branch with alpha ~ 1e-16: every clause below still applies within tolerance)
     if any(not math.isfinite(v) for i in range(nb) for v in list(Rp[i]) + [e for row in Jp[i] for e in row]):
         if all(der[i][1] >= 0 for i in range(nb)) and all(der[i][1] > 0 for i in range(nb) if masked[i]):
             res.append(('%s.forward:non-finite' % cname, 'non-finite output for a kernel with non-negative slope'))
@@ -557,8 +559,7 @@ def law_check(spec, cname, Rb, Jb, out, fast_out=None, g2s=None):
         rhs = sum(der[i][1] * JtR[i][l] for i in range(nb))
         mag = sum(abs(der[i][1]) * absJtR[i][l] for i in range(nb)) + sum(abs(q(Jp[i][k][l]) * q(Rp[i][k])) for i in range(nb) for k in range(d))
         if abs(lhs - rhs) > LAW_TOL * mag + mp.mpf(10) ** -280:
-            key = K_TRIGGS_GRAD if any(masked) or any(spurious) else '%s.forward:gradient' % cname
-            res.append((key, "column %d: J'^T R' = %s but sum rho' J^T R = %s (%s, kernel %s)" % (l, mp.nstr(lhs, 12), mp.nstr(rhs, 12), cname, label)))
+            res.append(('%s.forward:gradient' % cname, "column %d: J'^T R' = %s but sum rho' J^T R = %s (%s, kernel %s)" % (l, mp.nstr(lhs, 12), mp.nstr(rhs, 12), cname, label)))
             break
     for l in range(p):
         for m in range(l, p):
@@ -576,7 +577,7 @@ def law_check(spec, cname, Rb, Jb, out, fast_out=None, g2s=None):
         def differs(a, b):
             return any(abs(u - v) > 1e-12 * max(abs(u), abs(v)) for u, v in zip(a, b))
         for i in range(nb):
-            if not masked[i] and not spurious[i] and (differs(Rp[i], fast_out[0][i]) or any(differs(r1, r2) for r1, r2 in zip(Jp[i], fast_out[1][i]))):
+            if not masked[i] and (differs(Rp[i], fast_out[0][i]) or any(differs(r1, r2) for r1, r2 in zip(Jp[i], fast_out[1][i]))):
                 res.append(('Triggs.forward:unmasked-differs-from-FastTriggs', "block %d (rho'' <= 0 or R = 0): Triggs returns %s, FastTriggs %s" % (i, Rp[i], fast_out[0][i])))
                 break
     return res
@@ -614,15 +615,11 @@ def corrector_tensor(ctx, pp, torch, spec, Rb, Jb, batch, cases, meta):
         ctx.traces += 1
         if out[0] == 'raises':
             ctx.case(('corr', cname, label, repr(Rb)), nontrivial=True, branch='%s:%s:raises' % (cname, label))
-            expected = cname == 'Triggs' and not graph              # the model: triggs false ... = None
-            m = dict(base, corrector=cname, error=out[1])
-            if not expected:
-                ctx.mismatch('corrector-raises', m)
-            ctx.violation(K_TRIGGS_RAISE if (cname == 'Triggs' and not graph) else '%s.forward:raises' % cname,
+            m = dict(base, corrector=cname, error=out[1], key='%s.forward:raises' % cname)
+            ctx.mismatch('corrector-raises', m)                     # the model returns for every kernel
+            ctx.violation('%s.forward:raises' % cname,
                           '%s(%s) raised RuntimeError(%s) instead of returning (R\', J\')' % (cname, label, out[1][:80]), m)
             continue
-        if cname == 'Triggs' and not graph:
-            ctx.mismatch('corrector-raises', dict(base, corrector=cname, error='model expects compute_grads to raise; the implementation returned'))
         Rp, Jp = out
         for i in range(nb):
             g1 = g1s[i]
@@ -631,7 +628,8 @@ def corrector_tensor(ctx, pp, torch, spec, Rb, Jb, batch, cases, meta):
             finite = all(math.isfinite(v) for v in flat)
             x = sum(F(v) * F(v) for v in Rb[i])
             masked = cname == 'Triggs' and x != 0 and g2 > 0
-            br = '%s:%s' % (cname, 'none' if not finite else ('masked' if true2[i] > 0 else 'masked-by-rounding-noise') if masked else 'zero-residual' if x == 0 else 'unmasked')
+            br = '%s:%s' % (cname, 'none' if not finite else ('masked' if true2[i] > 0 else 'masked-by-rounding-noise') if masked else 'zero-residual' if x == 0 else
+                            'constant-slope' if cname == 'Triggs' and label in ('Id', 'Scale') else 'unmasked')
             idx = len(meta)
             ctx.case(('corr', cname, label, p1, p2, tuple(Rb[i]), repr(Jb[i])), nontrivial=x != 0, branch=br + ':d=%d' % d,
                      sample=dict(corrector=cname, kernel=label, p1=p1, p2=p2, R_i=Rb[i], J_i=Jb[i], g1=g1, g2=g2, R_out=Rp[i], J_out=Jp[i]) if idx % 41 == 9 else None)
@@ -691,8 +689,13 @@ def run_correctors(ctx, pp, torch):
         Rb = [gen_block(rng, d, kd, thr) for kd in kinds]
         Jb = [[[dy(rng, 3, 4) if rng.random() < 0.5 else rng.gauss(0, 2) for _ in range(p)] for _ in range(d)] for _ in kinds]
         corrector_tensor(ctx, pp, torch, spec, Rb, Jb, batch, cases, meta)
+    # regression: the witnesses of the repaired defects 298dcfc (R dropped; also reached through rounding noise with
+    # the built-in Tolerant kernel) and af4d69c (constant slope)
+    for spec, Rw, Jw in WITNESSES:
+        corrector_tensor(ctx, pp, torch, spec, Rw, Jw, (1,), cases, meta)
+
     def coq():
-        return run_enclosure_shared('C09', 'Model.Kernel', cases, prec=200, per_file=min(30, max(4, -(-len(cases) // max(1, NCPU // 2)))), timeout_goal=60)
+        return run_enclosure_shared('C09', 'Model.Kernel', cases, prec=200, per_file=min(30, max(4, -(-len(cases) // NFILES))), timeout_goal=60)
 
     def done(r):
         collect(ctx, r, cases, meta, 'corrector-enclosure')
@@ -730,50 +733,41 @@ def replay(ctx, c):
             out = fast if cname == 'FastTriggs' else run_corrector(pp, torch, spec, cname, Rt, Jt)
             if out[0] == 'raises':
                 bad.append('%s raised: %s' % (cname, out[1]))
+            elif c.get('key', '').endswith(':raises'):
+                pass
             else:                     # a replay names one clause (key): other, separately recorded, failures do not count
                 bad += [t for k, t in law_check(spec, cname, Rb, Jb, out, fast, g2s) if c.get('key') in (None, k)]
         return '; '.join(bad) if bad else None
     return None
 
 
-KNOWN_WITNESS = {
-    K_SCALE_NEG: dict(kind='kernel-neg', kid=6, p1=0.5, p2=0.0, x=-1.0),
-    K_TRIGGS_GRAD: dict(kind='corrector', corrector='Triggs', key=K_TRIGGS_GRAD, spec=['Sq', 'Sq', 0.0, 0.0, True], R=[[2.0]], J=[[[1.0]]], batch=[1]),
-    K_TRIGGS_RAISE: dict(kind='corrector', corrector='Triggs', spec=['Scale', 6, 0.5, 0.0, False], R=[[1.0, 2.0]], J=[[[1.0], [3.0]]], batch=[1]),
-}
+WITNESSES = [
+    (('Sq', 'Sq', 0.0, 0.0, True), [[2.0]], [[[1.0]]]),
+    (('Scale', 6, 0.5, 0.0, True), [[1.0, 2.0]], [[[1.0], [3.0]]]),
+    (('Id', 'Id', 0.0, 0.0, True), [[1.0, 2.0]], [[[1.0], [3.0]]]),
+    (('Tolerant', 5, 23.86093216690147, -0.5283749781623098, True), [[-0.27971224654684035, -1.4516636976935604]], [[[1.0], [2.0]]]),
+]
 
 
 def search(ctx, pp, torch):
     """model != implementation: evaluate the property's own clauses on the implementation at the
-    mismatching input (the listed findings are already part of the faithful model, so a failure that
-    is only a listed finding does not explain a mismatch)"""
+    mismatching input"""
     for m in ctx.mismatches[:40]:
         c = m['case']
         if c.get('kind') == 'kernel':
             c = dict(c, kind='kernel-neg' if c['x'] < 0 else 'kernel-value')
         try:
-            why = replay(ctx, c)
+            why = replay(ctx, dict((k, v) for k, v in c.items() if k != 'key'))
         except Exception as e:  # noqa
             why = 'replay raised %r' % (e,)
         if not why:
             continue
         if c['kind'] == 'kernel-neg':
-            key = K_SCALE_NEG if c['kid'] == 6 else 'kernel:%s:negative-input:accepted' % KNAMES[c['kid']]
+            key = 'kernel:%s:negative-input:accepted' % KNAMES[c['kid']]
         elif c['kind'].startswith('kernel'):
             key = 'kernel:%s:closed-form' % KNAMES[c['kid']]
         else:
-            spec = tuple(c['spec'])
-            Rb, Jb = c['R'], c['J']
-            d, p = len(Rb[0]), len(Jb[0][0])
-            Rt = torch.tensor(Rb, dtype=torch.float64).reshape(tuple(c['batch']) + (d,))
-            Jt = torch.tensor(Jb, dtype=torch.float64).reshape(len(Rb) * d, p)
-            out = run_corrector(pp, torch, spec, c['corrector'], Rt, Jt)
-            fast = run_corrector(pp, torch, spec, 'FastTriggs', Rt, Jt)
-            keys = ['%s.forward:raises' % c['corrector']] if out[0] == 'raises' else [k for k, _ in law_check(spec, c['corrector'], Rb, Jb, out, fast, grads_of(pp, torch, spec, Rt)[2])]
-            keys = [k for k in keys if k not in ctx.known] or keys
-            key = keys[0] if keys else '%s.forward' % c['corrector']
-        if key in ctx.known:
-            continue
+            key = c.get('key') or '%s.forward:identities' % c.get('corrector', 'corrector')
         m['explained'] = True
         ctx.violation(key, 'model and implementation disagree (%s) and the property fails here: %s' % (m['family'], why), c)
 
@@ -789,20 +783,13 @@ def run(ctx):
     # Coq case files are then checked concurrently
     jobs = [run_kernel_enclosure(ctx, pp, torch), run_correctors(ctx, pp, torch)]
     t1 = time.time()
-    with ThreadPoolExecutor(max_workers=2) as ex:
+    with ThreadPoolExecutor(max_workers=2 if NCPU >= 12 else 1) as ex:
         futs = [ex.submit(coq) for coq, _ in jobs]
         results = [f.result() for f in futs]
     for (_, done), r in zip(jobs, results):
         done(r)
     search(ctx, pp, torch)
     ctx.notes.append('implementation + oracles %.1f s, Coq case files %.1f s' % (t1 - t0, time.time() - t1))
-    # recorded findings are replayed on their witnesses on every run
-    for key in ctx.known:
-        if key in ctx.known_hit:
-            continue
-        w = KNOWN_WITNESS.get(key)
-        if w and replay(ctx, w):
-            ctx.known_hit[key] = 'witness still fails'
     ctx.assumptions = ["torch.autograd returns rho'(x), rho''(x) (contract of the Section variables g1, g2; checked against mpmath on every corrector case)",
                        'float64 only; IEEE rounding not modelled (tolerance %d eps of the intermediate magnitudes)' % K_EPS,
                        'tensor shapes / broadcasting of J not modelled']
